@@ -5,38 +5,38 @@ def _crdt(name, q, t):
 
 
 PROPS = {
-    "C01": _crdt("C01", 2500, 3000),
-    "C02": _crdt("C02", 2500, 3000),
-    "C03": _crdt("C03", 2500, 3000),
-    "C04": _crdt("C04", 3000, 4000),
-    "C05": _crdt("C05", 1500, 2000),
-    "C16": _crdt("C16", 3000, 4000),
-    "C06": {"jobs": [{"pkg": "auth", "run": "^TestC06$", "checks_quick": 3000, "checks_thorough": 4000, "shards_thorough": 16, "wal": True}]},
-    "C07": {"jobs": [{"pkg": "auth", "run": "^TestC07$", "checks_quick": 20000, "checks_thorough": 40000, "shards_thorough": 16}]},
-    "C08": {"jobs": [{"pkg": "codec", "run": "^TestC08", "checks_quick": 8000, "checks_thorough": 30000, "shards_thorough": 8, "xproc": True}]},
-    "C09": {"jobs": [{"pkg": "load", "run": "^TestC09$", "checks_quick": 1500, "checks_thorough": 2500, "shards_thorough": 16}]},
-    "C10": {"jobs": [{"pkg": "load", "run": "^TestC10$", "checks_quick": 1500, "checks_thorough": 2500, "shards_thorough": 16}]},
-    "C11": {"jobs": [{"pkg": "load", "run": "^TestC11$", "checks_quick": 1500, "checks_thorough": 2500, "shards_thorough": 16}], "timeout_quick": 1200},
-    "C12": {"jobs": [{"pkg": "hostile", "run": "^(TestC12|FuzzC12Decode)$", "checks_quick": 6000, "checks_thorough": 12000, "shards_thorough": 12, "wal": True},
-                     {"pkg": "hostile", "fuzz": "FuzzC12Decode", "tiers": ["thorough"], "shards_thorough": 1, "fuzztime_thorough": "240s"}]},
-    "C13": {"jobs": [{"pkg": "conc", "run": "^TestC13Coop$", "checks_quick": 4000, "checks_thorough": 8000, "shards_thorough": 12},
-                     {"pkg": "conc", "run": "^TestC13Free$", "race": True, "wal": True, "checks_quick": 250, "checks_thorough": 1500, "shards_quick": 4, "shards_thorough": 8}],
-            "timeout_quick": 1200},
-    "C14": {"jobs": [{"pkg": "conc", "run": "^TestC14Coop$", "checks_quick": 5000, "checks_thorough": 10000, "shards_thorough": 12},
-                     {"pkg": "conc", "run": "^TestC14Free$", "race": True, "wal": True, "checks_quick": 250, "checks_thorough": 1500, "shards_quick": 4, "shards_thorough": 8}],
-            "timeout_quick": 1200},
-    "C15": {"jobs": [{"pkg": "iter", "run": "^TestC15$", "checks_quick": 4000, "checks_thorough": 6000, "shards_thorough": 16}]},
-    "C17": {"jobs": [{"pkg": "load", "run": "^TestC17$", "checks_quick": 1500, "checks_thorough": 600, "shards_thorough": 16}]},
-    "C18": {"jobs": [{"pkg": "codec", "run": "^TestC18$", "checks_quick": 3000, "checks_thorough": 5000, "shards_thorough": 16}]},
-    "C19": {"jobs": [{"pkg": "order", "run": "^TestC19$", "checks_quick": 60000, "checks_thorough": 150000, "shards_thorough": 16}]},
+    "C01": _crdt("C01", 2500, 12000),
+    "C02": _crdt("C02", 2500, 10000),
+    "C03": _crdt("C03", 2500, 10000),
+    "C04": _crdt("C04", 3000, 16000),
+    "C05": _crdt("C05", 1500, 6000),
+    "C16": _crdt("C16", 3000, 20000),
+    "C06": {"jobs": [{"pkg": "auth", "run": "^TestC06$", "checks_quick": 3000, "checks_thorough": 16000, "shards_thorough": 16, "wal": True}]},
+    "C07": {"jobs": [{"pkg": "auth", "run": "^TestC07$", "checks_quick": 20000, "checks_thorough": 150000, "shards_thorough": 16}]},
+    "C08": {"jobs": [{"pkg": "codec", "run": "^TestC08", "checks_quick": 8000, "checks_thorough": 60000, "shards_thorough": 8, "xproc": True}]},
+    "C09": {"jobs": [{"pkg": "load", "run": "^TestC09$", "checks_quick": 1500, "checks_thorough": 10000, "shards_thorough": 16}]},
+    "C10": {"jobs": [{"pkg": "load", "run": "^TestC10$", "checks_quick": 1500, "checks_thorough": 10000, "shards_thorough": 16}]},
+    "C11": {"jobs": [{"pkg": "load", "run": "^TestC11$", "checks_quick": 1500, "checks_thorough": 10000, "shards_thorough": 16}], "timeout_quick": 1200, "timeout_thorough": 5400},
+    "C12": {"jobs": [{"pkg": "hostile", "run": "^(TestC12|FuzzC12Decode)$", "checks_quick": 6000, "checks_thorough": 30000, "shards_thorough": 12, "wal": True},
+                     {"pkg": "hostile", "fuzz": "FuzzC12Decode", "tiers": ["thorough"], "shards_thorough": 1, "fuzztime_thorough": "420s"}]},
+    "C13": {"jobs": [{"pkg": "conc", "run": "^TestC13Coop$", "checks_quick": 4000, "checks_thorough": 30000, "shards_thorough": 12},
+                     {"pkg": "conc", "run": "^TestC13Free$", "race": True, "wal": True, "checks_quick": 250, "checks_thorough": 4000, "shards_quick": 4, "shards_thorough": 8}],
+            "timeout_quick": 1200, "timeout_thorough": 5400},
+    "C14": {"jobs": [{"pkg": "conc", "run": "^TestC14Coop$", "checks_quick": 5000, "checks_thorough": 30000, "shards_thorough": 12},
+                     {"pkg": "conc", "run": "^TestC14Free$", "race": True, "wal": True, "checks_quick": 250, "checks_thorough": 4000, "shards_quick": 4, "shards_thorough": 8}],
+            "timeout_quick": 1200, "timeout_thorough": 5400},
+    "C15": {"jobs": [{"pkg": "iter", "run": "^TestC15$", "checks_quick": 4000, "checks_thorough": 25000, "shards_thorough": 16}]},
+    "C17": {"jobs": [{"pkg": "load", "run": "^TestC17$", "checks_quick": 1500, "checks_thorough": 3000, "shards_thorough": 16}]},
+    "C18": {"jobs": [{"pkg": "codec", "run": "^TestC18$", "checks_quick": 3000, "checks_thorough": 15000, "shards_thorough": 16}]},
+    "C19": {"jobs": [{"pkg": "order", "run": "^TestC19$", "checks_quick": 60000, "checks_thorough": 500000, "shards_thorough": 16}]},
 }
 
 for _pid, _q, _t in (("C02", 2500, 4000), ("C03", 2500, 4000), ("C04", 2500, 4000)):
-    PROPS[_pid]["jobs"].append({"pkg": "conc", "run": "^Test%sConc$" % _pid, "checks_quick": _q, "checks_thorough": _t, "shards_thorough": 8})
+    PROPS[_pid]["jobs"].append({"pkg": "conc", "run": "^Test%sConc$" % _pid, "checks_quick": _q, "checks_thorough": 4 * _t, "shards_thorough": 8})
 for _pid in ("C02", "C03"):
-    PROPS[_pid]["jobs"].append({"pkg": "conc", "run": "^Test%sMulti$" % _pid, "checks_quick": 2500, "checks_thorough": 4000, "shards_thorough": 8})
+    PROPS[_pid]["jobs"].append({"pkg": "conc", "run": "^Test%sMulti$" % _pid, "checks_quick": 2500, "checks_thorough": 16000, "shards_thorough": 8})
 
-PROPS["C20"] = {"jobs": [{"pkg": "keys", "run": "^TestC20$", "checks_quick": 1500, "checks_thorough": 2500, "shards_thorough": 16}]}
+PROPS["C20"] = {"jobs": [{"pkg": "keys", "run": "^TestC20$", "checks_quick": 1500, "checks_thorough": 8000, "shards_thorough": 16}]}
 
 HOOK_COMMITS = ["0049d5e", "3ca7037", "66fb88e"]
 
@@ -48,17 +48,17 @@ META = {
         "note": "Trusts the harness's in-memory DAG store, its set model and registry; FirstWriteWins is not used as a log ordering; bounded by program size.",
     },
     "C02": {
-        "technique": "stateful property-based testing (rapid): invariant over every reachable state against heads recomputed from the harness registry",
-        "text": "After every operation of generated multi-replica histories, Heads/RawHeads/ToSnapshot/ToJSONLog heads of every replica are compared with the unreferenced members of the model set (computed by the harness, not with FindHeads). Exploration.",
+        "technique": "stateful property-based testing (rapid): invariant over every reachable state against heads recomputed from the harness registry; plus generated concurrent programs (single shared log and several mutually merging logs) under the cooperative scheduler asserting the same clause",
+        "text": "After every operation of generated multi-replica histories, Heads/RawHeads/ToSnapshot/ToJSONLog heads of every replica are compared with the unreferenced members of the model set (computed by the harness, not with FindHeads); histories include refused merges, denied and failed appends, pinned appends and foreign-type merge sources. Two further jobs run generated concurrent programs under the cooperative scheduler and assert only this clause at every write-unlock and on the quiescent final states. Exploration.",
         "note": "Same trusted base as C01.",
     },
     "C03": {
-        "technique": "stateful property-based testing (rapid): Values() vs reference sort of the model set with the harness's own comparator",
+        "technique": "stateful property-based testing (rapid): Values() vs reference sort of the model set with the harness's own comparator; plus generated concurrent programs under the cooperative scheduler asserting the linearisation clauses on reads and final states",
         "text": "After every operation Values() (and ToSnapshot().Values) is checked complete, duplicate-free, causal and equal to the reference sort when the ordering is strict-total on the set (order-free clauses otherwise). Exploration.",
         "note": "Comparator re-implemented in the harness (time, clock-id bytes, hash string); trusts Go's sort.",
     },
     "C04": {
-        "technique": "stateful property-based testing (rapid): per-append postconditions against the model state preceding the append",
+        "technique": "stateful property-based testing (rapid): per-append postconditions against the model state preceding the append; plus generated concurrent programs under the cooperative scheduler (predecessors == heads at commit time, clock dominance, single head at unlock)",
         "text": "Every append in generated histories (incl. after merges, identity changes, rebuilds from entries, reloads from the store, initial clocks up to 2^40) is checked: next == model heads, clock id == writer key, time > every held time, single head, references within the causal past / disjoint from next / duplicate-free / <= floor(log2(pc))+2. Exploration.",
         "note": "Times stay far below MaxInt; the reload step relies on the loaders (C09).",
     },
